@@ -14,6 +14,7 @@ limitations under the License.
 package ttlcache
 
 import (
+	"math"
 	"sync"
 	"sync/atomic"
 	"time"
@@ -21,6 +22,9 @@ import (
 	"github.com/alphadose/haxmap"
 	kclock "k8s.io/utils/clock"
 )
+
+// maxTTLSeconds is the longest TTL, in seconds, that can be converted to a time.Duration.
+const maxTTLSeconds = int64(math.MaxInt64 / time.Second)
 
 // Cache is an efficient cache with a TTL.
 type Cache[V any] struct {
@@ -98,6 +102,11 @@ func (c *Cache[V]) Set(key string, val V, ttl int64) {
 
 	if c.maxTTL > 0 && ttl > c.maxTTL {
 		ttl = c.maxTTL
+	}
+
+	// A TTL of more seconds than a time.Duration can hold would overflow below and the entry would be born expired
+	if ttl > maxTTLSeconds {
+		ttl = maxTTLSeconds
 	}
 
 	exp := c.clock.Now().Add(time.Duration(ttl) * time.Second)
